@@ -16,7 +16,14 @@ def available():
     import ivp.oracles.specwriters as pkg
 
     skip = {"common", "selftest"}
-    return sorted(m.name for m in pkgutil.iter_modules(pkg.__path__) if m.name not in skip)
+    out = []
+    for m in pkgutil.iter_modules(pkg.__path__):
+        if m.name in skip:
+            continue
+        mod = importlib.import_module(f"ivp.oracles.specwriters.{m.name}")
+        if hasattr(mod, "st_model") and hasattr(mod, "FORMAT"):
+            out.append(m.name)
+    return sorted(out)
 
 
 def run(fmt, nexample=200, big=False):
